@@ -1,9 +1,14 @@
 (* Correspondence judge for C14. *)
 From JV Require Import Lib.Base Model.C14ClassSpec Spec.C14Spec Model.C14Guard.
 
+(* one class-typed option of the parser: declared type, default, the argv items / config-source entries that
+   address it (in order), what was observed for it *)
+Record part := { s_base : str; s_dflt : option value; s_steps : list input; s_obs : obs }.
+
 Record case := { k_fam : family; k_base : str; k_dflt : option value; k_steps : list input; k_obs : obs;
                  k_twin : option (list input * obs);
-                 k_object : bool (* given through parse_object instead of argv *) }.
+                 k_object : bool (* given through parse_object / config sources instead of plain argv: no twin *);
+                 k_sibs : list part (* further class-typed options of the same parser (names may share a prefix) *) }.
 
 Fixpoint raw_eqb (n : nat) (a b : raw) : bool :=
   match n with 0 => false | S n' =>
@@ -51,14 +56,53 @@ Definition twin_ok (c : case) : bool :=
     | None => list_eqb input_eqb (k_steps c) e
     end.
 
+(* A parser with several class-typed options: the options do not influence each other (whatever their names);
+   the model of the whole parse is the single-option model applied to each option's own items, and the parse is
+   rejected as a whole iff some option is rejected. *)
+Definition is_rej (o : obs) : bool := match o with ORej => true | _ => false end.
+
+Definition is_terr (o : obs) : bool := match o with OAcc _ ITypeErr => true | _ => false end.
+
+(* one ArgumentError rejects the whole parse; one TypeError aborts the whole instantiate_classes call *)
+Definition joint (os : list obs) : list obs :=
+  if existsb is_rej os then map (fun _ => ORej) os
+  else if existsb is_terr os then map (fun o => match o with OAcc v _ => OAcc v ITypeErr | _ => o end) os
+  else os.
+
+Definition parts_of (c : case) : list part :=
+  {| s_base := k_base c; s_dflt := k_dflt c; s_steps := k_steps c; s_obs := k_obs c |} :: k_sibs c.
+
+Definition model_ok (runf : family -> str -> option value -> list input -> obs) (c : case) : bool :=
+  list_eqb obs_eqb (joint (map (fun p => runf (k_fam c) (s_base p) (s_dflt p) (s_steps p)) (parts_of c)))
+                   (map s_obs (parts_of c))
+  && match k_twin c with
+     | Some (tw, o) => obs_eqb (runf (k_fam c) (k_base c) (k_dflt c) tw) o
+     | None => true
+     end.
+
+(* (S1), (S2) for every option; (S4) only for a parser with a single option (a sibling may be the one at fault) *)
+Definition spec_ok (c : case) : bool :=
+  fam_wf (k_fam c)
+  && match k_sibs c with
+     | [] => obs_ok (k_fam c) (k_base c) (k_dflt c) (k_steps c) (k_obs c)
+     | _ => forallb (fun p => match s_obs p with
+                              | ORej => true
+                              | OAcc v ITypeErr => valid (k_fam c) (s_base p) v     (* the culprit may be a sibling: below *)
+                              | o => obs_ok (k_fam c) (s_base p) (s_dflt p) (s_steps p) o
+                              end) (parts_of c)
+            && (negb (existsb (fun p => is_terr (s_obs p)) (parts_of c))
+                || existsb (fun p => match s_obs p with
+                                     | OAcc v _ => negb (instantiable (k_fam c) v && dk_accepted (k_fam c) v)
+                                     | _ => false
+                                     end) (parts_of c))
+     end
+  && twin_ok c.
+
 Definition judge1 (c : case) : verdict :=
-  {| v_model := obs_eqb (run (k_fam c) (k_base c) (k_dflt c) (k_steps c)) (k_obs c)
-                && match k_twin c with
-                   | Some (tw, o) => obs_eqb (run (k_fam c) (k_base c) (k_dflt c) tw) o
-                   | None => true
-                   end;
-     v_class := guard_class (k_fam c) (k_base c) (k_dflt c) (k_steps c);
-     v_spec := fam_wf (k_fam c) && obs_ok (k_fam c) (k_base c) (k_dflt c) (k_steps c) (k_obs c) && twin_ok c |}.
+  {| v_model := model_ok run c;
+     v_class := if existsb (fun p => negb (N.eqb (guard_class (k_fam c) (s_base p) (s_dflt p) (s_steps p)) 0))
+                           (parts_of c) then 1%N else 0%N;
+     v_spec := spec_ok c |}.
 
 Definition judge (cs : list case) := judge_all judge1 cs.
 
@@ -66,12 +110,8 @@ Definition judge (cs : list case) := judge_all judge1 cs.
    Set JUDGE = "judge_fixed" in tie/props/c14.py: the model is then the one that hands the loaded value
    down unchanged (run_fixed), no finding class is left, any recurrence is a VIOLATION. *)
 Definition judge1_fixed (c : case) : verdict :=
-  {| v_model := obs_eqb (run_fixed (k_fam c) (k_base c) (k_dflt c) (k_steps c)) (k_obs c)
-                && match k_twin c with
-                   | Some (tw, o) => obs_eqb (run_fixed (k_fam c) (k_base c) (k_dflt c) tw) o
-                   | None => true
-                   end;
+  {| v_model := model_ok run_fixed c;
      v_class := 0;
-     v_spec := fam_wf (k_fam c) && obs_ok (k_fam c) (k_base c) (k_dflt c) (k_steps c) (k_obs c) && twin_ok c |}.
+     v_spec := spec_ok c |}.
 
 Definition judge_fixed (cs : list case) := judge_all judge1_fixed cs.
